@@ -230,6 +230,10 @@ def run_monitor(module: str, cfg: str, shard_files: list[Path], *, timeout: floa
                 for k, n in zip(c[1::2], c[2::2]):
                     res.counters[k] = res.counters.get(k, 0) + n
             res.notes.extend(x[1:] for x in tlaval.find_tuples(r.out, "DRIFT"))
+            pre = tlaval.find_tuples(r.out, "PRECOND")
+            if pre:
+                # an input the monitor cannot decide (certificate rejected, stepping trace on a float boundary): the harness broke its obligation
+                raise MachineryError(f"trace monitor {module}: precondition of the specification not met by the harness: {pre[:3]}")
     res.wall = time.time() - t0
     return res
 
